@@ -117,7 +117,7 @@ def run_runtime(scratch, prop, contracts, tier, seed, limit, cases=None):
     deps = os.path.join(ROOT, ".deps")
     env["PYTHONPATH"] = os.pathsep.join([os.path.join(scratch, "repo"), ROOT, deps])
     env["ESVC_SCRATCH"] = scratch
-    r = subprocess.run(args, cwd=scratch, env=env, capture_output=True, text=True)
+    r = subprocess.run(args, cwd=scratch, env=env, capture_output=True, text=True, errors="replace")
     if r.returncode != 0 or not os.path.exists(out):
         raise RuntimeError("runtime evaluator failed: " + r.stdout[-1500:] + r.stderr[-3000:])
     return json.load(open(out))
@@ -197,6 +197,30 @@ def main(argv):
     with cf.ProcessPoolExecutor(max_workers=min(16, max(1, len(proved_fns)))) as ex:
         for r in ex.map(_prove_one, [(n, timeout, REPO) for n in proved_fns]):
             results.append(r)
+    # obligations the solver left open are tried once more, with four times the budget and at most four functions at a time:
+    # under a loaded machine the first pass can time out on obligations that discharge in seconds when run alone.
+    # Only an `unknown` is ever replaced; proved and refuted verdicts of the first pass stand.
+    open_fns = sorted({o["function"] for r in results for o in r["obligations"] if o["result"] == "unknown"})
+    retried = {}
+    if open_fns:
+        with cf.ProcessPoolExecutor(max_workers=min(4, len(open_fns))) as ex:
+            for r in ex.map(_prove_one, [(n, timeout * 4, REPO) for n in open_fns]):
+                retried[r["info"]["function"]] = r
+        for r in results:
+            r2 = retried.get(r["info"]["function"])
+            if r2 is None or r2["info"]["status"] != "ok":
+                continue
+            better = {}
+            for o in r2["obligations"]:
+                cur = better.get(o["name"])
+                if cur is None or {"proved": 0, "unknown": 1, "refuted": 2}[o["result"]] > {"proved": 0, "unknown": 1, "refuted": 2}[cur["result"]]:
+                    better[o["name"]] = o
+            for o in r["obligations"]:
+                if o["result"] == "unknown" and o["name"] in better and better[o["name"]]["result"] != "unknown":
+                    o.update(better[o["name"]])
+                    o["retried"] = True
+            for k in ("z3_s", "cvc5_s"):
+                r["solver"][k] = r["solver"].get(k, 0) + r2["solver"].get(k, 0)
     agg = {}          # obligation name -> worst status
     per_ob = {}
     rank = {"proved": 0, "unknown": 1, "refuted": 2}
